@@ -170,9 +170,14 @@ def check_state(st, ent, tier, out):
     def check_view(view, want, label, full=True):
         out.ev()
         try:
-            got = set(int(x) for x in view.flatten())
+            flat = np.asarray(view.flatten())
+            got = set(int(x) for x in flat)
         except Exception as e:
             bad('exception', f"{label}: flatten raised {e!r}", selection=label)
+            return False
+        if len(flat) != len(got) or flat.ndim != 1 or not np.issubdtype(flat.dtype, np.integer):
+            bad('dof-array', f"{label}: flatten() returned shape {flat.shape} dtype {flat.dtype} with {len(flat) - len(got)} repeated "
+                f"entries (an index array naming each DOF once is what condense / enforce / x[D] = ... consume)", selection=label)
             return False
         if got != want:
             bad('dof-set', f"{label}: returned {sorted(got)[:12]}{'..' if len(got) > 12 else ''} expected "
